@@ -1532,8 +1532,42 @@ fn c17_slow_state_commands() -> Option<(String, String)> {
     None
 }
 
+/// equal target names in two projects: `lib::pack` (which takes its own project's `gen.output`) does not wait for
+/// the root project's unrelated, long-running `gen`; that one ends only once pack has started
+fn c17_same_name_in_another_project_is_not_a_dependency() -> Option<(String, String)> {
+    for args in [vec!["lib::pack", "gen"], vec!["gen", "lib::pack"]] {
+        let p = Proj::new("c17n");
+        let tr = p.trace.display().to_string();
+        let hold = format!("i=0; while ! grep -q \"start pack\" {tr} && [ $i -lt 150 ]; do sleep 0.1; i=$((i+1)); done; if grep -q \"start pack\" {tr}; then echo \"root-gen saw-pack\" >> {tr}; else echo \"root-gen gave-up\" >> {tr}; fi", tr = tr);
+        p.write_yml("zinoma.yml", &format!("imports:\n  lib: lib\ntargets:\n  gen:\n    build: '{}'\n    output: [{{paths: [root-gen.txt]}}]\n", p.script("root-gen", &hold)));
+        p.write_yml(
+            "lib/zinoma.yml",
+            &format!("name: lib\ntargets:\n  gen:\n    build: '{}'\n    output: [{{paths: [lib-gen.txt]}}]\n  pack:\n    dependencies: [gen]\n    input: [gen.output]\n    build: '{}'\n", p.script("lib-gen", &format!("echo x > lib-gen.txt; echo end lib-gen >> {}", tr)), p.quick("pack")),
+        );
+        let c = p.spawn(&args);
+        let e = wait_end(c, 60);
+        let tr = p.trace_lines();
+        let left = p.leftovers();
+        p.cleanup();
+        if e.timed_out {
+            return Some(("run does not end".to_string(), format!("zinoma {:?}; trace {:?}", args, tr)));
+        }
+        if tr.iter().any(|l| l == "root-gen gave-up") {
+            return Some(("a target waited for a same-named target of another project that is not its dependency".to_string(), format!("zinoma {:?}: lib::pack did not start while the root project's gen was in progress; trace {:?}", args, tr)));
+        }
+        if e.code != Some(0) || !tr.iter().any(|l| l == "end pack") || !tr.iter().any(|l| l == "end lib-gen") {
+            return Some(("run failed or the real dependency did not run".to_string(), format!("zinoma {:?}: exit {:?}; trace {:?}; stderr {}", args, e.code, tr, e.stderr.lines().rev().take(3).collect::<Vec<_>>().join(" | "))));
+        }
+        if !left.is_empty() {
+            return Some(("process left behind".to_string(), format!("{:?}", left)));
+        }
+    }
+    None
+}
+
 pub fn bind_c17(rep: &mut Report) {
     let sc: Vec<Scenario> = vec![
+        ("equal target names in two projects: no wait for the other project's target", c17_same_name_in_another_project_is_not_a_dependency),
         ("two targets inside slow cmd_stdout inputs on a two-thread runtime, an independent chain beside them", c17_slow_state_commands),
         ("three independent builds under an aggregate", || c17_rendezvous(&["x", "y", "z"], yml_three_independent, &["all"])),
         ("three independent builds requested one by one", || c17_rendezvous(&["x", "y", "z"], yml_three_independent, &["z", "x", "y"])),
